@@ -136,7 +136,7 @@ def gen_kernel(rng, zones, invalid=False, nonmonotone=False, fullrep=False):
     return helpers + "@move{DEC}\ndef main(c: bool):\n" + body + f"\n    return ({ret},)\n"
 
 
-def record_runtime(m, args, S):
+def record_runtime(m, args, S, everywhere=False):
     """concrete run recording every value bound in main's top-level block"""
     from bloqade.shuttle.arch import ArchSpecInterpreter
     seen = {}
@@ -146,7 +146,7 @@ def record_runtime(m, args, S):
 
         def eval_stmt(self, frame, stmt):
             r = super().eval_stmt(frame, stmt)
-            if isinstance(r, tuple) and stmt.parent_stmt is m.code:
+            if isinstance(r, tuple) and (everywhere or stmt.parent_stmt is m.code):
                 for res, v in zip(stmt.results, r):
                     seen.setdefault(res, []).append(v)
             return r
@@ -288,6 +288,50 @@ def check_kernel(ctx, src, S, statics, label, cases, other=None):
                          f"after HintZone was re-run with the current spec, {len(stale)} hints still differ from the analysis, e.g. {stale[0][1]} instead of {stale[0][2]}")
         except Exception as e:
             ctx.fail({"kind": "hint-pass-raises", "error": type(e).__name__}, rep, f"HintZone raised {type(e).__name__}: {str(e)[:120]}")
+    # the hints HintZone leaves on ANY value it touches - in the kernel, inside its loops and branches, in the subroutines it calls - are
+    # claims of the same kind: every run-time value of a hinted SSA value, on every call and every iteration, must satisfy its hint
+    try:
+        from kirin import ir
+        from kirin.dialects import func
+        from bloqade.shuttle.passes.hint_zone import HintZone
+        m3 = kernels.define(src, S=S)["main"]
+        HintZone(m3.dialects, arch_spec=S)(m3)
+        methods, todo = [], [m3]
+        while todo:
+            cur = todo.pop()
+            if any(cur is x for x in methods):
+                continue
+            methods.append(cur)
+            todo += [st.callee for st in cur.callable_region.walk() if isinstance(st, func.Invoke)]
+        runs3 = [record_runtime(m3, (c,), S, everywhere=True) for c in (False, True)]
+        L = c18.L()
+        for mt in methods:
+            for st in mt.callable_region.walk():
+                for res in st.results:
+                    a = res.hints.get("zone.analysis")
+                    if a is None or (mt is m3 and st.parent_stmt is m3.code):
+                        continue            # top-level values of the kernel are judged above
+                    vals = [v for _, seen in runs3 for v in seen.get(res, [])]
+                    rz = root_zone(a)
+                    where = f"{mt.sym_name}: {type(st).__name__}"
+                    if is_invalid(a) and vals:
+                        ctx.fail({"kind": "invalid-but-computed", "zone": c18.show(a), "where": "nested"}, dict(rep, where=where), f"value hinted {c18.show(a)} inside {where} was computed at run time")
+                    elif type(a) is L.SpecZone or rz is not None:
+                        g = zone_grid(S, a.spec_id if type(a) is L.SpecZone else rz)
+                        for v in vals:
+                            try:
+                                bad = (tuple(v.shape) != tuple(g.shape) or list(v.positions) != list(g.positions)) if type(a) is L.SpecZone else bool(sites(v) - sites(g))
+                            except Exception:
+                                bad = True
+                            if bad:
+                                ctx.fail({"kind": "sites-outside-zone" if rz is not None and type(a) is not L.SpecZone else "not-the-zone", "zone": rz or a.spec_id, "where": "nested"}, dict(rep, where=where),
+                                         f"a value inside {where} is hinted {c18.show(a)[:60]} but one of its run-time values is not in / not that zone")
+                                break
+                        else:
+                            if vals:
+                                ctx.nt((label, src, "nested", where, str(res)))
+    except Exception as e:
+        ctx.fail({"kind": "hint-pass-raises", "error": type(e).__name__, "where": "nested"}, rep, f"HintZone / the recording run raised {type(e).__name__}: {str(e)[:120]}")
     # Coq: the analysis model on the abstracted main block
     prog, nargs, ssa_of = abstract_main(m, S)
     got = [c18.show(entries[s]) if s in entries else "-" for s in ssa_of]
@@ -357,6 +401,24 @@ def run(ctx):
         ('    z1 = spec.get_static_trap(zone_id="aux")\n    p2 = filled.vacate(z1, [(0, 0), (1, 2)])\n    v3 = grid.sub_grid(p2, [0, 1], [0])\n    w4 = filled.get_parent(p2)\n'),
         ('    z1 = spec.get_static_trap(zone_id="mem")\n    p2 = filled.vacate(z1, [(1, 1)])\n    v3 = filled.get_parent(p2)\n    w4 = filled.shift(z1, 0.0, 0.0)\n'),
     ]
+    # loop-carried grids: the value before the loop lies outside every zone, the body overwrites it with a view (or the other way
+    # round); the loop runs zero times for c = False
+    LOOP_KERNELS = [
+        ('    z1 = spec.get_static_trap(zone_id="{Z}")\n    p2 = grid.shift(z1, 100.0, 0.0)\n    k = 0\n    if c:\n        k = 2\n    i = 0\n    for i in range(k):\n        p2 = z1[0:2, 0:1]\n'
+         '    v3 = p2[0:1, 0:1]\n    w4 = grid.sub_grid(p2, [0], [0])\n'),
+        ('    z1 = spec.get_static_trap(zone_id="{Z}")\n    p2 = z1[0:2, 0:1]\n    k = 0\n    if c:\n        k = 1\n    i = 0\n    for i in range(k):\n        p2 = grid.shift(p2, 50.0, 50.0)\n'
+         '    v3 = p2[0:1, 0:1]\n    w4 = grid.sub_grid(p2, [0], [0])\n'),
+        ('    z1 = spec.get_static_trap(zone_id="{Z}")\n    p2 = z1\n    k = 0\n    if c:\n        k = 3\n    i = 0\n    for i in range(k):\n        if i > 0:\n            p2 = grid.shift(z1, 0.0, 10.0 * i)\n'
+         '    v3 = p2[0:1, 0:1]\n    w4 = corner(p2)\n'),
+    ]
+    for body in LOOP_KERNELS:
+        for label in ("plain", "filled"):
+            S_l, zones_l = FIX[label]
+            src = ("@move\ndef corner(g: grid.Grid[Any, Any]):\n    return g[0, 0]\n\n@move{DEC}\ndef main(c: bool):\n" + body.replace("{Z}", zones_l[0]) +
+                   "    gate.local_rz(0.5, z1)\n    gate.local_rz(0.5, p2)\n    gate.local_rz(0.5, v3)\n    gate.local_rz(0.5, w4)\n")
+            for dec, tag in (("", "unfolded"), ("(arch_spec=S)", "folded")):
+                check_kernel(ctx, src.replace("{DEC}", dec), S_l, zones_l, f"{label}/{tag}", cases)
+            nfixed += 1
     for body in FILLED_KERNELS:
         for param in (False, True):
             # the site lists as literals, and handed in at run time (nothing to fold)
